@@ -107,6 +107,7 @@ def names_and_spellings(res, prog, cu):
         m = C18.CTX_RE.match(f.path)
         if m:
             byctx.setdefault(m.group(1), {})[m.group(2)] = f
+    res.rule('C04.14', 0, floor=6, note='CALLEE_SAVED_REGS of every architecture is the platform ABI set, without duplicates')
     res.rule('C04.4', 0, floor=30, note='register names used by the unwinders exist in the context\'s tables')
     res.rule('C04.6', 0, floor=30, note='validity sets hold, and raw `contains` tests use, only canonical (memoized) spellings')
     for arch, ctx in CTX_OF.items():
@@ -131,6 +132,24 @@ def names_and_spellings(res, prog, cu):
         if saved is None:
             res.error('C04.4', 'CALLEE_SAVED_REGS of %s not found' % arch)
             saved = []
+        # C04.14: the table is the platform ABI's callee-saved set (what "recovered callee-saved registers" means): the
+        # registers a STACK CFI record may leave unmentioned because the callee preserves them.  Sets as in the System V
+        # i386 / x86-64 psABIs, AAPCS32 (r4-r10, r11 = fp), AAPCS64 (x19-x28, x29 = fp) and the MIPS o32 / n64 ABIs
+        # ($s0-$s7, $gp, $sp, $fp); the link / return-address registers are handled by the techniques themselves.
+        ABI = {'x86': ['ebp', 'ebx', 'edi', 'esi'], 'amd64': ['rbx', 'rbp', 'r12', 'r13', 'r14', 'r15'],
+               'arm': ['r4', 'r5', 'r6', 'r7', 'r8', 'r9', 'r10', 'fp'],
+               'arm64': ['x19', 'x20', 'x21', 'x22', 'x23', 'x24', 'x25', 'x26', 'x27', 'x28', 'fp'],
+               'arm64_old': ['x19', 'x20', 'x21', 'x22', 'x23', 'x24', 'x25', 'x26', 'x27', 'x28', 'fp'],
+               'mips': ['s0', 's1', 's2', 's3', 's4', 's5', 's6', 's7', 'gp', 'sp', 'fp']}
+        if arch in ABI and saved:
+            res.rule('C04.14', 1)
+            dup = sorted(set(n for n in saved if saved.count(n) > 1))
+            canon = lambda n: memo.get(n, n)
+            missing = sorted(set(canon(n) for n in ABI[arch]) - set(canon(n) for n in saved))
+            extra = sorted(set(canon(n) for n in saved) - set(canon(n) for n in ABI[arch]))
+            if dup or missing or extra:
+                res.violation('C04.14', 'C04.14|%s' % arch, None, None, 'CALLEE_SAVED_REGS of %s is not the ABI\'s callee-saved set:%s%s%s; a register missing here is lost in every caller frame whose CFI record does not mention it' % (
+                    arch, (' listed twice: %s;' % dup) if dup else '', (' missing: %s;' % missing) if missing else '', (' not callee-saved: %s' % extra) if extra else ''), file='minidump-unwind/src/%s.rs' % arch)
         for n in saved:
             res.rule('C04.4', 1)
             res.rule('C04.6', 1)
